@@ -3089,6 +3089,15 @@ impl Block {
                 }
 
                 //
+                // the miner share is paid to the key named in the golden ticket; the
+                // all-zero key cannot receive it and the share would be lost
+                //
+                if golden_ticket.public_key == [0; 33] {
+                    error!("ERROR 720352: golden ticket names the all-zero key");
+                    return false;
+                }
+
+                //
                 // we confirm that the golden ticket is targetting the block hash
                 // of the previous block. the solution is invalid if it is not
                 // current with the state of the chain..
